@@ -1021,31 +1021,52 @@ fn with_delegations(c: &mut Ctx, d: &NaiveDate, field: usize, v: u32, r: &Result
 }
 
 /// `DateTime<FixedOffset>::years_since` with each value at its own offset: correspondence, and the
-/// whole-years oracle on the two wall clocks (when both are inside the range)
+/// whole-years oracle on the two wall clocks.  The wall clocks are NOT taken from chrono's own offset addition
+/// (`naive_local`, part of the code under test, and a panic in the headroom day): (year, month, day, second of
+/// day) come from `wall_ymd` (UTC day number in closed form + offset), the nanosecond field from the UTC
+/// reading — so pairs with a wall clock in the day before MIN / after MAX are judged too (audit2 M2).
 fn years_zoned(c: &mut Ctx, xa: &DateTime<FixedOffset>, xb: &DateTime<FixedOffset>) {
     let r = guard(|| xa.years_since(*xb));
     c.op(&format!("dto.zys {} {}", enc_z(xa), enc_z(xb)), &match r { Ok(o) => opt(o), Err(()) => "panic".into() });
-    if let (Ok(la), Ok(lb)) = (guard(|| xa.naive_local()), guard(|| xb.naive_local())) {
-        let ka = (la.year() as i64, la.month(), la.day(), la.time());
-        let kb = (lb.year() as i64, lb.month(), lb.day(), lb.time());
-        match r {
-            Ok(Some(k)) => {
-                let k = k as i64;
-                if !((kb.0 + k, kb.1, kb.2, kb.3) <= ka && ka < (kb.0 + k + 1, kb.1, kb.2, kb.3)) {
-                    c.fail("DateTime<FixedOffset>::years_since: not the number of whole years elapsed between the wall clocks", &format!("{xa:?} since {xb:?} -> {k}"));
-                }
-                c.count("years:fixed:some");
+    let key = |z: &DateTime<FixedOffset>| {
+        let (y, m, d, s) = wall_ymd(z);
+        (y, m, d, s, z.naive_utc().time().nanosecond() as i64)
+    };
+    let (ka, kb) = (key(xa), key(xb));
+    let headroom = !in_range(ka.0) || !in_range(kb.0);
+    let detail = format!("{} since {} (wall clocks {ka:?} / {kb:?})", enc_z(xa), enc_z(xb));
+    // reference count: whole years between the two wall-clock readings
+    let want: Option<i64> = {
+        let dy = ka.0 - kb.0 - if (ka.1, ka.2, ka.3, ka.4) < (kb.1, kb.2, kb.3, kb.4) { 1 } else { 0 };
+        if dy >= 0 { Some(dy) } else { None }
+    };
+    match r {
+        Ok(Some(k)) => {
+            let k = k as i64;
+            if !((kb.0 + k, kb.1, kb.2, kb.3, kb.4) <= ka && ka < (kb.0 + k + 1, kb.1, kb.2, kb.3, kb.4)) {
+                c.fail("DateTime<FixedOffset>::years_since: not the number of whole years elapsed between the wall clocks", &format!("{detail} -> {k}"));
             }
-            Ok(None) => {
-                if !(ka < kb) {
-                    c.fail("DateTime<FixedOffset>::years_since: fails although base's wall clock is not after self's", &format!("{xa:?} since {xb:?}"));
-                }
-                c.count("years:fixed:none");
+            if want != Some(k) {
+                c.fail("DateTime<FixedOffset>::years_since: not the reference count of whole years", &format!("{detail} -> {k}, want {want:?}"));
             }
-            Err(()) => c.fail("DateTime<FixedOffset>::years_since: panicked", &format!("{xa:?} since {xb:?}")),
+            if k > 524286 {
+                c.fail("DateTime<FixedOffset>::years_since: count above the widest possible pair (524286)", &format!("{detail} -> {k}"));
+            }
+            c.count(if headroom { "years:fixed:headroom-wall-clock:some" } else { "years:fixed:some" });
         }
-    } else {
-        c.count("years:fixed:headroom-wall-clock");
+        Ok(None) => {
+            if !(ka < kb) || want.is_some() {
+                c.fail("DateTime<FixedOffset>::years_since: fails although base's wall clock is not after self's", &detail);
+            }
+            c.count(if headroom { "years:fixed:headroom-wall-clock:none" } else { "years:fixed:none" });
+        }
+        Err(()) => c.fail("DateTime<FixedOffset>::years_since: panicked", &detail),
+    }
+    // the independent wall clock against chrono's own, where chrono has one
+    if let Ok(la) = guard(|| xa.naive_local()) {
+        if (la.year() as i64, la.month() as i64, la.day() as i64, la.time().num_seconds_from_midnight() as i64, la.time().nanosecond() as i64) != ka {
+            c.fail("DateTime<FixedOffset>::naive_local: not instant + offset read on the calendar", &detail);
+        }
     }
 }
 
